@@ -18,6 +18,7 @@ if TYPE_CHECKING:
     from aiomysensors.gateway import Gateway, MessageBuffer
     from aiomysensors.model.message import Message
 
+from aiomysensors.exceptions import UnsupportedMessageError
 from aiomysensors.model.const import DEFAULT_PROTOCOL_VERSION
 
 from . import protocol_14, protocol_15, protocol_20, protocol_21, protocol_22
@@ -87,8 +88,13 @@ def get_outgoing_message_handler(
     """Return the correct message handler from the protocol."""
     command: IntEnum = protocol.Command(message.command)
     message_handlers = protocol.OutgoingMessageHandler
-    message_handler: Callable[
-        [Gateway, Message, MessageBuffer | None, str],
-        Coroutine[Any, Any, None],
-    ] = getattr(message_handlers, f"handle_{command.name}")
+    message_handler: (
+        Callable[
+            [Gateway, Message, MessageBuffer | None, str],
+            Coroutine[Any, Any, None],
+        ]
+        | None
+    ) = getattr(message_handlers, f"handle_{command.name}", None)
+    if message_handler is None:
+        raise UnsupportedMessageError(message, protocol.VERSION)
     return message_handler
